@@ -253,7 +253,7 @@ theorem agree_struct (fs : List (Bytes × Schema)) (deny : Bool) (f t : Nat) (v 
     have hel : ∀ kv ∈ kvs, Spec.Utf8.validUtf8 kv.1 = true ∧ shapeW kv.2 = true ∧
         ∀ i nm s, FromValue.nameIndex (fieldNames fs) kv.1 = some i → fs[i]? = some (nm, s) →
           Agree1 (deTyped env f (t + 1) s) (FromValue.fromValue cfg' ext' s kv.2) (T ext kv.2) :=
-      fun kv hx => ⟨(vok_member kvs kv hx hv).1, (vok_member kvs kv hx hv).2.1, fun i nm s h1 h2 => iho kvs rfl kv hx i nm s h1 h2⟩
+      fun kv hx => ⟨(vok_member kvs kv hx hv).1, (vok_member kvs kv hx hv).2, fun i nm s h1 h2 => iho kvs rfl kv hx i nm s h1 h2⟩
     have hloop := structLoop_text ext hext hflt cfg' hap ext' f (t + 1) fs deny kvs hel true (fs.map fun _ => none)
       ((Tmembers ext kvs ++ 0x7d :: rest).length + 1) rest (pos + 1) (by simp [Tm])
     simp only [Tm, if_true] at hloop
